@@ -223,6 +223,9 @@ def check_program(e, L, spellings=("class", "method", "operator", "roperator"), 
             res["detail"] = "%s emits %r, differs from reference %r on text %r" % (s, pat, rf.rx, text)
             res["inputs"] = {"src": s, "pattern": pat, "ref": rf.rx, "text": text}
             res["script"] = EQUIV_SCRIPT % dict(src=s, ref=rf.rx, text=text)
+        elif verdict == "unsupported" and mode == "C10":
+            res["status"] = "discharged"
+            res["detail"] = "accepted as documented and accepted by re.compile; text semantics outside the exact encoding: %s" % info
         elif verdict == "unsupported" and mode == "C08" and "backreference" in info:
             res["status"] = "discharged"
             res["detail"] = "group structure equal (count and names); text semantics outside the encoding: %s" % info
@@ -246,6 +249,12 @@ def _exc_is_business(mode, got_exc, expect):
     if mode == "C04":
         # bounds validation and CannotBeRepeated only for bounds above one
         return True
+    if mode == "C10":
+        names = {got_exc, expect[1] if expect[0] == "exc" else None}
+        return "NonFixedWidthPatternException" in names
+    if mode == "C09":
+        names = {got_exc, expect[1] if expect[0] == "exc" else None}
+        return "CannotBeRepeatedException" in names
     if mode == "C08":
         return got_exc not in ("CannotBeRepeatedException", "NonFixedWidthPatternException") if got_exc else \
             expect[1] in ("InvalidCapturingGroupNameException", "InvalidArgumentTypeException")
@@ -260,3 +269,124 @@ def dedupe(ps):
             seen.add(k)
             out.append(p)
     return out
+
+
+def check_totality(e, spellings=("class", "method", "operator", "roperator")):
+    """C03 on one DSL program: the call raises a pregex exception, or returns a pattern re accepts whose exported
+    text is printable; never another exception."""
+    out = []
+    name = dsl.src(e, "class")
+    try:
+        dsl.ref(e, leaf_text)
+    except dsl.Unspecified as x:
+        return [{"name": name, "status": "skipped", "detail": "unspecified: %s" % x}]
+    except Exception:
+        pass
+    for sp in spellings:
+        if sp == "operator" and not dsl.has_operator_form(e):
+            continue
+        if sp == "roperator" and e[0] != "exactly":
+            continue
+        s = dsl.src(e, sp)
+        ev = evaluate(s)
+        nm = "%s [%s]" % (name, sp) if sp != "class" else name
+        script = ("src = %r\ntry:\n    p = eval(src)\nexcept RecursionError:\n    REPRODUCED(src + ' raised RecursionError')\nexcept Exception as e:\n"
+                  "    if type(e).__name__ not in [n for n in dir(__import__('pregex.core.exceptions', fromlist=['x']))]: REPRODUCED(src + ' raised ' + repr(e))\n"
+                  "    NOT_REPRODUCED()\n"
+                  "try:\n    re.compile(str(p), FLAGS)\nexcept re.error as e:\n    REPRODUCED(src + ' returned %%r which re rejects: %%s' %% (str(p), e))\n"
+                  "g = p.get_pattern()\n"
+                  "if not g.isprintable(): REPRODUCED(src + ': get_pattern() %%r is not printable' %% g)\n"
+                  "try:\n    re.compile(g, FLAGS)\nexcept re.error as e:\n    REPRODUCED(src + ': exported text %%r does not compile: %%s' %% (g, e))\n"
+                  "NOT_REPRODUCED()\n") % s
+        if ev[0] == "exc":
+            if ev[1] in PREGEX_EXC:
+                out.append({"name": nm, "status": "discharged", "detail": "library exception %s" % ev[1]})
+            else:
+                out.append({"name": nm, "status": "violated", "detail": "%s raised %s %s" % (s, ev[1], ev[2][:80]),
+                            "inputs": {"src": s, "exc": ev[1], "text": ""}, "script": script})
+            continue
+        pat = ev[1]
+        bad = None
+        try:
+            re.compile(pat, R.FLAGS)
+        except re.error as x:
+            if ("unknown group name" in str(x) or "invalid group reference" in str(x) or "cannot refer to an open group" in str(x)) and _has_ref(e):
+                out.append({"name": nm, "status": "skipped", "detail": "reference to a group the expression does not define (excepted by the property)"})
+                continue
+            bad = "re rejects %r: %s" % (pat, x)
+        except RecursionError:
+            bad = None
+        if bad is None:
+            try:
+                g = ev[2].get_pattern()
+                if not g.isprintable():
+                    bad = "get_pattern() %r is not printable" % g
+                else:
+                    re.compile(g, R.FLAGS)
+            except re.error as x:
+                bad = "exported text does not compile: %s" % x
+            except Exception as x:
+                bad = "get_pattern() raised %r" % (x,)
+        if bad:
+            out.append({"name": nm, "status": "violated", "detail": "%s: %s" % (s, bad), "inputs": {"src": s, "pattern": pat, "text": ""}, "script": script})
+        else:
+            out.append({"name": nm, "status": "discharged"})
+    return out
+
+
+EXPORT_SCRIPT = (
+    "src = %(src)r\ntext = %(text)r\np = eval(src)\ng = p.get_pattern()\n"
+    "if not g.isprintable(): REPRODUCED('%%s: get_pattern() %%r is not printable' %% (src, g))\n"
+    "def fi(pat):\n    rx = re.compile(pat, FLAGS)\n    return [(m.span(), tuple(m.span(k) for k in range(1, rx.groups + 1))) for m in rx.finditer(text)]\n"
+    "try:\n    a, b = fi(str(p)), fi(g)\nexcept re.error as e:\n    REPRODUCED('%%s: exported text %%r: %%s' %% (src, g, e))\n"
+    "if a != b: REPRODUCED('%%s: pattern %%r and exported text %%r differ on %%r: %%r vs %%r' %% (src, str(p), g, text, a, b))\n"
+    "p.compile()\n"
+    "c = [(s, e) for _, s, e in p.get_matches_and_pos(text)]\n"
+    "if c != [x[0] for x in a]: REPRODUCED('%%s: matches after compile() %%r differ from %%r on %%r' %% (src, c, a, text))\n"
+    "NOT_REPRODUCED()\n")
+
+
+def check_export(e, L):
+    """the exported text get_pattern() is printable and compiles to a regex equivalent to str(p) (all texts up to L)"""
+    s = dsl.src(e, "class")
+    ev = evaluate(s)
+    name = "export %s" % s
+    if ev[0] == "exc":
+        return [{"name": name, "status": "skipped", "detail": "raises %s" % ev[1]}]
+    pat = ev[1]
+    try:
+        g = ev[2].get_pattern()
+    except Exception as x:
+        return [{"name": name, "status": "violated", "detail": "%s.get_pattern() raised %r" % (s, x), "inputs": {"src": s, "text": ""},
+                 "script": EXPORT_SCRIPT % dict(src=s, text="")}]
+    if not g.isprintable():
+        return [{"name": name, "status": "violated", "detail": "%s: get_pattern() %r is not printable" % (s, g), "inputs": {"src": s, "text": ""},
+                 "script": EXPORT_SCRIPT % dict(src=s, text="")}]
+    try:
+        re.compile(g, R.FLAGS)
+        re.compile(pat, R.FLAGS)
+    except re.error as x:
+        return [{"name": name, "status": "violated", "detail": "%s: %r / exported %r: %s" % (s, pat, g, x), "inputs": {"src": s, "text": ""},
+                 "script": EXPORT_SCRIPT % dict(src=s, text="")}]
+    if g == pat:
+        return [{"name": name, "status": "discharged", "detail": "identical text"}]
+    verdict, text, ss, info = equiv_query(pat, g, L)
+    res = {"name": name, "solver_s": ss, "sample": {"program": s, "pattern": pat, "exported": g, "verdict": verdict}}
+    if verdict == "unsat":
+        res["status"] = "discharged"
+    elif verdict == "sat":
+        res.update(status="violated", detail="%s: pattern %r and exported text %r differ on %r" % (s, pat, g, text),
+                   inputs={"src": s, "pattern": pat, "exported": g, "text": text}, script=EXPORT_SCRIPT % dict(src=s, text=text))
+    else:
+        res.update(status="inconclusive", detail="%s %s" % (verdict, info))
+    return [res]
+
+
+def _has_ref(e):
+    if isinstance(e, tuple):
+        if e and e[0] in ("bref", "cond"):
+            return True
+        return any(_has_ref(x) for x in e)
+    if isinstance(e, list):
+        return any(_has_ref(x) for x in e)
+    return False
